@@ -275,6 +275,21 @@ func (ns *normState) planRenames() editSet {
 				extras = append(extras, f)
 			}
 		}
+		// a private canonical function that was exported under its own name (defaultX → DefaultX)
+		for _, f := range decl {
+			if !f.Exported() {
+				continue
+			}
+			sig := f.Type().(*types.Signature)
+			if _, ok := cset[short+"|"+recvStr(sig)+"|"+f.Name()]; ok {
+				continue
+			}
+			low := strings.ToLower(f.Name()[:1]) + f.Name()[1:]
+			k2 := short + "|" + recvStr(sig) + "|" + low
+			if _, isCanon := cset[k2]; isCanon && known[k2] == nil && pk.Types.Scope().Lookup(low) == nil {
+				extras = append(extras, f)
+			}
+		}
 		isIfaceRename := func(name, sig string) bool {
 			for _, r := range mrens {
 				if r.pkg == short && r.old == name && r.sig == sig {
